@@ -507,7 +507,9 @@ Definition scope_restrictive (sc : scope) : bool :=
 Definition value_ok (sc : scope) (x : rtv) : bool :=
   match r_pv x with
   | Some v =>
-      match scope_partial sc with None => negb (scope_restrictive sc && has_container v) | Some _ => negb (has_container v) end
+      (* MISSING_VALUE stands for the default of the field, which may hold dicts / lists *)
+      let c := has_container v || Typing.is_missing v in
+      match scope_partial sc with None => negb (scope_restrictive sc && c) | Some _ => negb c end
   | None => false
   end.
 Fixpoint any_typed (n : node) : bool :=
@@ -515,6 +517,17 @@ Fixpoint any_typed (n : node) : bool :=
   | Leaf _ => false
   | Node _ _ _ _ _ its =>
       checks_members n || (fix go (l : list (key * node)) : bool := match l with [] => false | (_, c) :: r => any_typed c || go r end) its
+  end.
+
+(* an object that does not accept partial values and has an unfilled attribute (reachable through an allow_partial scope
+   only): a copy constructs it again through the class, which is refused (dicts and lists are copied pass_through) *)
+Fixpoint unfilled (n : node) : bool :=
+  match n with
+  | Leaf _ => false
+  | Node _ k _ _ fl its =>
+      (match k with KObj _ => true | _ => false end && checks_members n && negb (f_partial fl) &&
+       existsb (fun kc => SymCoreDefs.is_missing (snd kc)) its) ||
+      (fix go (l : list (key * node)) : bool := match l with [] => false | (_, c) :: r => unfilled c || go r end) its
   end.
 
 (* _formalized_value: apply the field with the effective allow_partial, then build the nodes.
@@ -923,6 +936,13 @@ Definition exec_ulist (sc : scope) (st : state) (ps : pos) (tfl : flags) (its : 
   let sl := treats_as_sealed sc tfl in
   match o with
   | LExtend xs | LIAdd xs => if sl then (st, Err EWrite) else textend_core sc st ps xs
+  | LRemove l =>      (* list.index compares with ==: 2 finds 2.0, which is a coded leaf here *)
+      match find_index (fun kv => match snd kv with Leaf x => Typing.py_eq (leaf_pv x) (leaf_pv l) | _ => false end) its with
+      | None => (st, Err EValue)
+      | Some idx =>
+          if sl then (st, Err EWrite) else if negb (writable_via_accessors sc tfl) then (st, Err EWrite) else
+          (fst (ldel_core sc st ps idx), Ok RNone)
+      end
   | LIMul m =>
       if sl then (st, Err EWrite) else
       if m <=? 0 then deleg
@@ -986,7 +1006,23 @@ Definition container_at (st : state) (tp : pos) (path : list key) : option node 
       end
   | None => None
   end.
+(* a value given by reference that has typed containers inside: if it has to be copied on the way (it has a parent already)
+   the copy is constructed under the scope *)
+Definition ref_typed (st : state) (x : rtv) : bool :=
+  match (match r_rv x with RIns v => v | v => v end) with
+  | RNodeId i =>
+      match locate st i with
+      | Some p => match get_at st p with Some n => any_typed n | None => false end
+      | None => false
+      end
+  | _ => false
+  end.
 Definition guard (sc : scope) (st : state) (ps : pos) (tn : node) (o : op rtv) : bool :=
+  negb ((scope_restrictive sc || match scope_partial sc with Some _ => true | None => false end) &&
+        existsb (ref_typed st) (op_values o)) &&
+  (* removing a declared key stores the default of its field, like assigning MISSING_VALUE *)
+  negb ((scope_restrictive sc || match scope_partial sc with Some _ => true | None => false end) && checks_members tn &&
+        match o with DDel _ _ | DPop _ _ | DClear => true | _ => false end) &&
   match o with
   | Rebind pvs =>
       forallb (fun pv => match container_at st ps (fst pv) with
@@ -1002,7 +1038,8 @@ Definition guard (sc : scope) (st : state) (ps : pos) (tn : node) (o : op rtv) :
       (* copying a typed value constructs it again (through the accessors of the copy) *)
       match o with
       | LMul _ | LAdd _ | LCopy | DCopy | Clone _ =>
-          negb ((scope_restrictive sc || match scope_partial sc with Some _ => true | None => false end) && any_typed tn)
+          negb ((scope_restrictive sc || match scope_partial sc with Some _ => true | None => false end) && any_typed tn) &&
+          negb (unfilled tn)
       | _ => true
       end
   end.
